@@ -333,7 +333,8 @@ int main()
 			{
 				const unsigned lev(std::stoul(w[2])), val(std::stoul(w[3]));
 				if (lev > 4) { out("bad-op"); continue; }
-				const std::string text(w[4] == "-" ? std::string() : w[4]);
+				std::string text(w[4] == "-" ? std::string() : w[4]);
+				for (size_t i(0); i < text.size(); ++i) if (text[i] == '^') text[i] = '\n';	// `^` in a scripted text stands for a line feed
 				const bool r(w[0] == "send" ? lg->send(text, Logger::Level(lev), nullptr, val) : lg->enqueue(text, Logger::Level(lev), nullptr, val));
 				out(r ? "ret=1" : "ret=0");
 			}
